@@ -120,6 +120,10 @@ func init() {
 			Hints: chainHints, LoopMarks: map[int]act{1: {Tag: chLoopStat}}, Acts: map[string]act{"defer": {Tag: chDefer}}},
 		target{Dir: "core/base", Func: "SlotChain.exit", Name: "chain_exit_step", LoopBody: 1, LoopAny: true,
 			Hints: chainHints, Acts: map[string]act{"<range>.OnCompleted": {Tag: chOnCompleted}}},
+		// ---- what "blocked" means: TokenResult.IsBlocked, EntryContext.IsBlocked (nil result = not blocked) ----
+		target{Dir: "core/base", Func: "TokenResult.IsBlocked", Name: "tokenResult_IsBlocked"},
+		target{Dir: "core/base", Func: "EntryContext.IsBlocked", Name: "ctx_IsBlocked",
+			Hints: map[string]hint{"ctx.RuleCheckResult": {"ctx_result", "iface"}, "ctx.RuleCheckResult.IsBlocked()": {"result_blocked", "bool"}}},
 		// ---- the context pool ----
 		target{Dir: "core/base", Func: "SlotChain.RefurbishContext", Name: "chain_RefurbishContext",
 			Acts: map[string]act{"c.Reset": {Tag: chReset}, "sc.ctxPool.Put": {Tag: chPoolPut}}},
